@@ -58,6 +58,8 @@ Lemma conj_spec w x y z : nz4 w x y z -> C09_conj_R w x y z = Val (qconj [w;x;y;
 Proof. unfold nz4, C09_conj_R. alg. Qed.
 Lemma q_conj_spec w x y z : C09_q_conj_R w x y z = Val (qconj [w;x;y;z]).
 Proof. unfold C09_q_conj_R. alg. Qed.
+Lemma q_conj_rows_spec a b c d w x y z : C09_q_conj_rows_R a b c d w x y z = Val (qconj [a;b;c;d] ++ qconj [w;x;y;z]).
+Proof. unfold C09_q_conj_rows_R. intros; cbv zeta. cbv [app]. unfold_rot. val_eq; ring. Qed.
 (* scalar-last: the conjugate is returned in the quaternion's own storage order [x;y;z;w] *)
 Lemma conj_S_spec w x y z : nz4 w x y z -> C09_conj_S_R w x y z = Val [-x; -y; -z; w].
 Proof. unfold nz4, C09_conj_S_R. alg. Qed.
